@@ -591,7 +591,9 @@ PROPS["C15"] = {
     "level_text": "Containment, status, body detail, completion of outer middleware and instance health are Lean theorems over "
                   "Model/Chain for every chain with Recovery at any position and every program; tied to recovery.go/context.go/"
                   "response_writer.go by differential checking (five panic value kinds, injection failures, dev/prod, "
-                  "repeated requests on one instance).",
+                  "repeated requests on one instance). Which mode a process is in (FLAMEGO_ENV at start, SetEnv afterwards) is "
+                  "modelled in Model/Env with theorems for every value and call sequence (Props/C15Env) and tied by `envinit` "
+                  "sessions that run the real package in fresh processes.",
     "level_note": "Trusted: Lean kernel; hand-written model tied by differential testing; open finding F15 (panicking Before hook) "
                   "matched by signature; position-based containment is proved under a stated guard (see Props/C15).",
     "props_modules": ["Flamego.Props.C15", "Flamego.Props.C15Env"],
@@ -845,7 +847,8 @@ PROPS["C05"] = {
                   "`serve` is abstract in the isolation theorem of Props/C05 and a list of micro-operations in Props/C05Req (tied to the code by the "
                   "`concreq` sessions: lock-step interleavings on every run, free-running ones through the -race build); "
                   "the -race run is supporting evidence and the hunting ground for "
-                  "replays, not a proof. A footprint change with no observed race ends in no-failing-input-found.",
+                  "replays, not a proof; its reference answer for every request is the request served on an instance that served nothing else. "
+                  "A footprint change with no observed race ends in no-failing-input-found.",
     "props_modules": ["Flamego.Props.C05", "Flamego.Props.C05Req"],
     "suite": "C05",
     "stats": _c05_stats,
@@ -860,7 +863,11 @@ PROPS["C05"] = {
         "events as modelled by HB.once / HB.atomic",
         "net/http's Handler contract: every ServeHTTP call gets its own ResponseWriter and *Request (classified request-local)",
         "the libraries listed in Props/C05.lean `documentedConcurrencySafe` are safe for concurrent use as documented "
-        "(regexp.Regexp matching, charmbracelet/log.Logger, sync, sync/atomic, reflect inspection, http.Dir)",
+        "(regexp.Regexp matching, charmbracelet/log.Logger, sync, sync/atomic, reflect inspection, http.Dir); methods of a shared "
+        "sync.Map / sync.Pool are data-race free by documentation (`synchronisedContainers`) — what such a container carries from "
+        "one request to the next is an isolation question decided by the concurrent correspondence, which then runs at thorough depth",
+        "the header map a response writer hands out is that writer's own; the Append… functions of the standard library return the "
+        "buffer they were given; a function only ever called under one sync.Once runs under it",
         "the Go race detector and scheduler (supporting evidence only)",
         "Props/C05Req `ownerTable`: the documented list of per-request object kinds (a prefix of the footprint's write target); "
         "concreq sessions: the bind parameters of a request are those the generator built its path from (routing itself is C01/C02), "
